@@ -147,6 +147,8 @@ def fam_suppress(p: Dict[str, Any], problems: List[str], w: World) -> Tuple[str,
         w.settle()
         w.advance(2_400_000)
     base = [ptr(1, 4500), ptr(2, 4500)]
+    if p.get("heard_q") == "same-name":
+        w.net.inject(host, wire.response([("TXT", TA, 1, 4500, b"\x01x")]), ("10.0.0.51", 5353))
     w.net.inject(host, wire.response(base), ("10.0.0.50", 5353))
     w.settle()
     w.advance(2000)
@@ -175,7 +177,12 @@ def fam_suppress(p: Dict[str, Any], problems: List[str], w: World) -> Tuple[str,
         # the heard query may carry further QM questions before or after ours (all must be remembered)
         qs = {"single": [("Q", TA, 12, 1)], "ours-first": [("Q", TA, 12, 1), ("Q", "_b._tcp.local.", 12, 1)],
               "ours-last": [("Q", "_b._tcp.local.", 12, 1), ("Q", "ownb._b._tcp.local.", 33, 1), ("Q", TA, 12, 1)],
-              "ours-after-qu": [("Q", "_b._tcp.local.", 12, 0x8001), ("Q", TA, 12, 1)]}[p.get("heard_q", "single")]
+              "ours-after-qu": [("Q", "_b._tcp.local.", 12, 0x8001), ("Q", TA, 12, 1)],
+              "same-name": [("Q", TA, 12, 1), ("Q", TA, 16, 1)]}[p.get("heard_q", "single")]
+        if p.get("heard_q") == "same-name":
+            # a second question for the same name and another type, with a known answer of its own that this instance holds
+            # in its cache (learned a moment ago): still nothing it does not know
+            first_ka = first_ka + [("TXT", TA, 1, 4500, b"\x01x")]
         if p.get("other_ka"):
             # the query's other question comes with a known answer of its own - this instance's own pointer for that type,
             # a record it certainly knows: the list still holds nothing it does not know
@@ -428,7 +435,7 @@ def points(tier: str) -> List[Dict[str, Any]]:
                             pts.append({"fam": "suppress", "first": first, "gap": gap, "rel": rel, "second": second,
                                         "earlier_ms": e})
                     if first == "heard" and second == "QM":
-                        for hq in ("ours-first", "ours-last", "ours-after-qu"):
+                        for hq in ("ours-first", "ours-last", "ours-after-qu", "same-name"):
                             pts.append({"fam": "suppress", "first": first, "gap": gap, "rel": rel, "second": second,
                                         "heard_q": hq})
                             if gap in (500, 999, 1000):
